@@ -158,6 +158,23 @@ def oracle(c, obs):
             sig.append('contract:accepted-with-open-step')
         if status == 1 and cl and cl[-1][0] == 3 and False:
             pass
+    if mode == 1 and (opts & 6) and b'\0' not in data:
+        # special-predicate conversion: every delivered edge / heuristic must be justified by a well-formed `_edge(..)` / `_acyc_..` /
+        # `_heuristic(..)` symbol line of the input (independent reference matchers of props/C08.py); a delivery without one means the
+        # scanner used bytes that are not part of that name
+        from props import C08 as R
+        names = []
+        for ln in data.replace(b'\r\n', b'\n').replace(b'\r', b'\n').split(b'\n'):
+            k = ln.find(b' ')
+            if k > 0 and ln[:k].strip().isdigit():
+                names.append(ln[k + 1:])
+        n_edge = sum(1 for nm in names if R.ref_edge(nm) is not None)
+        n_heu = sum(1 for nm in names if R.ref_heu(nm) is not None)
+        cl = C.dec_all(obs[4:])[0]
+        if sum(1 for c_ in cl if c_[0] == 12) > n_edge:
+            sig.append('edge-delivered-without-a-well-formed-edge-symbol')
+        if sum(1 for c_ in cl if c_[0] == 11) > n_heu:
+            sig.append('heuristic-delivered-without-a-well-formed-heuristic-symbol')
     if mode == 7:
         code = obs[4] if len(obs) > 4 else -1
         if code not in (0, 1, 2000):
@@ -267,9 +284,23 @@ def smodels_text(rnd):
             nl = rnd.randint(0, 3); ng = rnd.randint(0, nl)
             lines.append('6 0 %d %d %s %s' % (nl, ng, ' '.join(str(A()) for _ in range(nl)), ' '.join(str(rnd.randint(0, 3)) for _ in range(nl))))
     lines.append('0')
-    names = ['a', 'b(1)', '_heuristic(a,level,1,2)', '_edge(1,2)', '_acyc_1_2_3', 'p("x,y")', '_heuristic(b(1),sign,-1)']
-    for i in range(1, n + 1):
-        if rnd.random() < 0.6:
+    names = ['a', 'b(1)', '_heuristic(a,level,1,2)', '_edge(1,2)', '_acyc_1_2_3', 'p("x,y")', '_heuristic(b(1),sign,-1)',
+             # scanner boundaries of the special-predicate matchers: unterminated quotes, names ending in a backslash, escaped
+             # backslashes before a quote, unbalanced parentheses, a longer name before a shorter malformed one (stale bytes behind it)
+             'aaaaaaaaaaaaaaaa",b)', '_edge("a\\', '_edge("a\\\\",b)', '_heuristic("b\\', '_heuristic(p("x\\"),level,1)', '_edge((a,b',
+             '_edge(a,"b', '_heuristic(a', '_heuristic(a,level,', '_acyc_', '_acyc_1_', '_edge(,)', '_heuristic("\\\\",sign,1,1)']
+    if rnd.random() < 0.25 and n >= 2:
+        # "stale tail": a truncated special predicate right after a longer name whose tail would complete it if a scanner ran past the
+        # end of the shorter name (the name buffer is re-used between symbols)
+        whole = rnd.choice(['_edge("a\\",b)', '_edge("a",b)', '_heuristic("a\\",level,1)', '_heuristic(p("x"),sign,1,2)', '_edge(f("x\\\\"),2)', '_acyc_1_2_3'])
+        k = rnd.randint(2, len(whole) - 1)
+        lines.append('1 %s%s' % ('a' * (k + rnd.randint(0, 3)), whole[k:]))
+        lines.append('2 %s' % whole[:k])
+        start = 3
+    else:
+        start = 1
+    for i in range(start, n + 1):
+        if rnd.random() < 0.7:
             lines.append('%d %s' % (i, rnd.choice(names)))
     lines.append('0')
     lines.append('B+')
@@ -435,6 +466,8 @@ def gen(seed, tier):
         (2, 0, b'a :- 1 {b = -2}.\n'),
         (2, 0, b'#output "  a b" : x1.\n'),
         (2, 0, b'x1 :- not\tx2.\n'),
+        (1, 7, b'1 1 0 0\n1 2 0 0\n0\n1 aaaaaaaaaa",b)\n2 _edge("a\\\n0\nB+\n0\nB-\n0\n1\n'),
+        (1, 7, b'1 1 0 0\n1 2 0 0\n0\n1 aaaaaaaaaaaaaaa",level,1)\n2 _heuristic("a\\\n0\nB+\n0\nB-\n0\n1\n'),
         # incremental program whose second step re-uses a conditional theory element of the first (conditions must outlive the step)
         (4, 0, b'asp 1 0 0 incremental\n9 1 0 1 p\n9 0 1 7\n9 0 2 8\n9 4 0 1 1 1 1\n9 4 1 1 2 2 2 -3\n9 5 0 0 2 0 1\n0\n9 0 3 9\n9 4 2 1 3 1 4\n9 5 0 0 2 2 1\n0\n'),
         (7, 4, b'asp 1 0 0 incremental\n9 1 0 1 p\n9 0 1 7\n9 0 2 8\n9 4 0 1 1 1 1\n9 4 1 1 2 2 2 -3\n9 5 0 0 2 0 1\n0\n9 0 3 9\n9 4 2 1 3 1 4\n9 5 0 0 2 2 1\n0\n'),
